@@ -56,9 +56,12 @@ type Solver struct {
 	Errors    []string
 	TimeoutMS int
 
-	Winners   map[string]int
-	noRace    bool
-	raceDelay time.Duration
+	Winners    map[string]int
+	noRace     bool
+	inTier1    bool
+	Tier1Hits  int
+	scalarMemo map[*Term]bool
+	raceDelay  time.Duration
 }
 
 type cachedModel struct {
@@ -221,6 +224,27 @@ func (s *Solver) symbols(t *Term) []int32 {
 	return r
 }
 
+// scalarOnly reports whether t mentions neither arrays nor uninterpreted functions.
+func (s *Solver) scalarOnly(t *Term) bool {
+	if v, ok := s.scalarMemo[t]; ok {
+		return v
+	}
+	r := t.Op != OpSelect && t.Op != OpUF
+	if r {
+		for _, a := range t.Args {
+			if !s.scalarOnly(a) {
+				r = false
+				break
+			}
+		}
+	}
+	if s.scalarMemo == nil {
+		s.scalarMemo = map[*Term]bool{}
+	}
+	s.scalarMemo[t] = r
+	return r
+}
+
 // slice keeps the conjuncts of pc that are (transitively) connected to goal through shared symbols.
 func (s *Solver) slice(pc []*Term, goal *Term) []*Term {
 	if len(pc) == 0 {
@@ -300,6 +324,26 @@ func (s *Solver) check(pc []*Term, goal *Term, doSlice bool) Result {
 	}
 	if doSlice && goal != TTrue {
 		pc = s.slice(pc, goal)
+		// tier 1: an unsat proof from the scalar conjuncts alone (no arrays, no uninterpreted
+		// functions) is sound and far cheaper; anything else falls through to the full query
+		if !s.inTier1 && s.scalarOnly(goal) {
+			var sc []*Term
+			for _, p := range pc {
+				if s.scalarOnly(p) {
+					sc = append(sc, p)
+				}
+			}
+			if len(sc) < len(pc) {
+				s.inTier1 = true
+				sc = s.slice(sc, goal)
+				r := s.check(sc, goal, false)
+				s.inTier1 = false
+				if r == Unsat {
+					s.Tier1Hits++
+					return Unsat
+				}
+			}
+		}
 	}
 	lits, seen, ok := dedupeLits(pc, goal)
 	if !ok {
